@@ -94,6 +94,14 @@ func (m FileMatcher) Match(file *ast.File, d data.Data) (data.Data, bool) {
 			return false
 		}
 
+		switch n.(type) {
+		case *ast.Comment, *ast.CommentGroup:
+			// Comments are never part of a pattern. A group may also
+			// have lost all its comments to an earlier change of the
+			// same run; it then has no position to report.
+			return false
+		}
+
 		d, ok := m.NodeMatcher.Match(reflect.ValueOf(n), d, nodeRegion(n))
 		if !ok {
 			return true
